@@ -227,6 +227,18 @@ class ResolveAnchorIds(Transform):
             self.document, "myst_slugs", {}
         )
 
+        # the titles were recorded while parsing: refresh them, since transforms that
+        # ran in between (e.g. sphinx's i18n ``Locale``) may have replaced the titles
+        # (``slugs`` is the same object as ``env.metadata[docname]["myst_slugs"]``,
+        # which links from other documents use)
+        for node in findall(self.document)(
+            lambda n: isinstance(n, nodes.section | nodes.rubric)
+            and n.get("slug") in slugs
+        ):
+            line, sect_id, _ = slugs[node["slug"]]
+            title = node[0] if isinstance(node, nodes.section) else node
+            slugs[node["slug"]] = (line, sect_id, clean_astext(title))
+
         # gather explicit references
         # this follows the same logic as Sphinx's StandardDomain.process_doc
         explicit: dict[str, tuple[str, None | str]] = {}
